@@ -3,6 +3,7 @@
   `parse_total` - `Parser.parse` terminates on every token list.
 -/
 import XonshVerif.Proofs.PegTotal
+import XonshVerif.Properties.C15
 import XonshVerif.Generated.ParserIR
 import XonshVerif.Generated.WfWitness
 namespace XVC
@@ -22,5 +23,15 @@ theorem shipped_parser_total (w : Array RTok) (start : Nat) (verbose : Bool) :
 
 /-- the shipped grammar has no rule that can succeed on the empty token string -/
 theorem no_nullable_rule : XV.Gen.wfNullMask = 0 := by decide +kernel
+
+/-- **C15**: the version gates of the shipped parser, by threshold: `except*` needs (3, 11); the `type` statement and type
+    parameter lists need (3, 12).  (A new gate, a changed threshold, or a gate that disappears changes this list.) -/
+theorem shipped_version_gates : progGates XV.Gen.prog = [11, 12, 12] := by decide +kernel
+
+/-- with `py_version` at or above (3, 12) the option changes nothing in the shipped parser -/
+theorem shipped_py_version_irrelevant_from_312 (v v' : Nat) (hv : 12 ≤ v) (hv' : 12 ≤ v') : gateProg v XV.Gen.prog = gateProg v' XV.Gen.prog := by
+  apply py_version_irrelevant_above_all_gates
+  · intro m hm; rw [shipped_version_gates] at hm; simp at hm; omega
+  · intro m hm; rw [shipped_version_gates] at hm; simp at hm; omega
 
 end XVC
